@@ -6,6 +6,7 @@ import Verif.Model.Scanner
 import Verif.Model.CharMap
 import Verif.Model.States
 import Verif.Model.Tokenizer
+import Verif.Model.ExprParser
 
 open Verif
 
@@ -206,6 +207,46 @@ def doQuote (args : List String) : String :=
       else "bad-op"
   | _ => "bad-op"
 
+/-! ### expression parser: `parse <tok>*`, tok = code | 35:runes | 34:runes | 36:payload -/
+
+def parseETok (t : String) : Option (ETok String) :=
+  match t.splitOn ":" with
+  | [c] => c.toNat?.map fun n => ⟨ET.ofCode n, [], none, 0⟩
+  | [c, p] =>
+    match c.toNat? with
+    | some 35 => some ⟨.variable, parseRunes p, none, 0⟩
+    | some 34 => some ⟨.function, parseRunes p, none, 0⟩
+    | some 36 => some ⟨.constant, [], some p, 0⟩
+    | _ => none
+  | _ => none
+
+def showETok (t : ETok String) : String :=
+  match t.typ with
+  | .variable => s!"35:{showRunes t.name}"
+  | .function => s!"34:{showRunes t.name}"
+  | .constant => match t.cst with
+    | some p => s!"36:{p}"
+    | none => s!"36:i{t.argc}"
+  | ty => toString ty.toNat
+
+def parseFuel (n : Nat) : Nat := 16 * (n + 2)
+
+def runParse (toks : List (ETok String)) : Except PErr (PState String) :=
+  match Parser.p0 (parseFuel toks.length) ⟨toks, [], []⟩ with
+  | .error e => .error e
+  | .ok st => if st.rest.isEmpty then .ok st else .error .errorNear
+
+def doParse (args : List String) : String :=
+  let toks := args.filterMap parseETok
+  if toks.length != args.length then "bad-op"
+  else if toks.isEmpty then "ok - ; -"
+  else match runParse toks with
+    | .error e => s!"err {e.code}"
+    | .ok st =>
+      let out := if st.out.isEmpty then "-" else " ".intercalate (st.out.map showETok)
+      let vars := if st.vars.isEmpty then "-" else " ".intercalate (st.vars.map showRunes)
+      s!"ok {out} ; {vars}"
+
 def handle (line : String) : String :=
   match (line.trimAscii.toString.splitOn " ").filter (· != "") with
   | [] => ""
@@ -217,6 +258,7 @@ def handle (line : String) : String :=
   | "tokh" :: args => doTokH args
   | "sym" :: args => doSym args
   | "quote" :: args => doQuote args
+  | "parse" :: args => doParse args
   | _ => "bad-op"
 
 end Drv
